@@ -222,11 +222,19 @@ func InferPower(ctx context.Context[parser.IPowerExpressionContext]) types.Type 
 		}
 
 		// Recursively infer exponent type (right-associative)
-		_ = InferPower(context.Child(ctx, ctx.AST.PowerExpression()))
+		expType := InferPower(context.Child(ctx, ctx.AST.PowerExpression()))
 
 		// Power operation returns the unwrapped base type
-		// (e.g., chan f32 ^ i32 = f32, f64 ^ f64 = f64)
-		return baseType.Unwrap()
+		// (e.g., chan f32 ^ i32 = f32, f64 ^ f64 = f64). A literal base takes the type
+		// of the exponent, as the analyzer unifies the two and as every other arithmetic
+		// operator infers it: otherwise `v := 2 ^ x_i8` declares v with the literal's
+		// default type while the value is computed in i8.
+		resultType := baseType.Unwrap()
+		if exp := expType.Unwrap(); resultType.Kind == types.KindVariable &&
+			exp.Kind != types.KindVariable && exp.Kind != types.KindInvalid {
+			resultType = exp
+		}
+		return resultType
 	}
 	return types.Type{}
 }
